@@ -627,6 +627,36 @@ ACC(__tsan_unaligned_read2, 2, 0) ACC(__tsan_unaligned_read4, 4, 0) ACC(__tsan_u
 ACC(__tsan_unaligned_write2, 2, 1) ACC(__tsan_unaligned_write4, 4, 1) ACC(__tsan_unaligned_write8, 8, 1) ACC(__tsan_unaligned_write16, 16, 1)
 void __tsan_read_range(void *a, size_t n) { if (!enabled) return; sched_stats.range_accesses++; mon_access(a, n, 0, RA); sched_yield_point(YC_ACCESS); }
 void __tsan_write_range(void *a, size_t n) { if (!enabled) return; sched_stats.range_accesses++; mon_access(a, n, 1, RA); sched_yield_point(YC_ACCESS); }
+/* atomics (`#pragma omp atomic`, C11 atomics): one task runs at a time, so the plain operation is atomic; for the monitor every
+ * atomic operation acquires and releases one global synchronisation object - an over-approximation of the ordering they give
+ * (it can hide a race that goes through an atomic, it can never report one that is not there) */
+static uint32_t atomic_vc[SCHED_MAXTASK];
+static void atomic_sync(void) {
+  if (!enabled) return;
+  sched_yield_point(YC_CRITICAL);
+  vc_join(tasks[cur].vc, atomic_vc);
+  memcpy(atomic_vc, tasks[cur].vc, sizeof atomic_vc);
+  tasks[cur].vc[cur]++;
+}
+#define TSAN_ATOMIC(T, B)                                                                                                                       \
+  T __tsan_atomic##B##_load(const volatile T *a, int mo) { (void)mo; atomic_sync(); return *a; }                                                \
+  void __tsan_atomic##B##_store(volatile T *a, T v, int mo) { (void)mo; atomic_sync(); *a = v; }                                                \
+  T __tsan_atomic##B##_exchange(volatile T *a, T v, int mo) { (void)mo; atomic_sync(); T o = *a; *a = v; return o; }                            \
+  T __tsan_atomic##B##_fetch_add(volatile T *a, T v, int mo) { (void)mo; atomic_sync(); T o = *a; *a = (T)(o + v); return o; }                  \
+  T __tsan_atomic##B##_fetch_sub(volatile T *a, T v, int mo) { (void)mo; atomic_sync(); T o = *a; *a = (T)(o - v); return o; }                  \
+  T __tsan_atomic##B##_fetch_and(volatile T *a, T v, int mo) { (void)mo; atomic_sync(); T o = *a; *a = (T)(o & v); return o; }                  \
+  T __tsan_atomic##B##_fetch_or(volatile T *a, T v, int mo) { (void)mo; atomic_sync(); T o = *a; *a = (T)(o | v); return o; }                   \
+  T __tsan_atomic##B##_fetch_xor(volatile T *a, T v, int mo) { (void)mo; atomic_sync(); T o = *a; *a = (T)(o ^ v); return o; }                  \
+  T __tsan_atomic##B##_fetch_nand(volatile T *a, T v, int mo) { (void)mo; atomic_sync(); T o = *a; *a = (T) ~(o & v); return o; }               \
+  int __tsan_atomic##B##_compare_exchange_strong(volatile T *a, T *c, T v, int mo, int fmo) { (void)mo; (void)fmo; atomic_sync(); if (*a == *c) { *a = v; return 1; } *c = *a; return 0; } \
+  int __tsan_atomic##B##_compare_exchange_weak(volatile T *a, T *c, T v, int mo, int fmo) { (void)mo; (void)fmo; atomic_sync(); if (*a == *c) { *a = v; return 1; } *c = *a; return 0; }   \
+  T __tsan_atomic##B##_compare_exchange_val(volatile T *a, T c, T v, int mo, int fmo) { (void)mo; (void)fmo; atomic_sync(); T o = *a; if (o == c) *a = v; return o; }
+TSAN_ATOMIC(char, 8)
+TSAN_ATOMIC(short, 16)
+TSAN_ATOMIC(int, 32)
+TSAN_ATOMIC(long, 64)
+void __tsan_atomic_thread_fence(int mo) { (void)mo; atomic_sync(); }
+void __tsan_atomic_signal_fence(int mo) { (void)mo; }
 void __tsan_func_entry(void *pc) { (void)pc; if (!enabled) return; sched_yield_point(YC_FUNC); }
 void __tsan_func_exit(void) {}
 void __tsan_init(void) {}
